@@ -450,7 +450,9 @@ def emit_fn(spec, mode, probe=False):
                 edits.append((o + 1, '\n' + text))
             else:
                 edits.append((c, text))
-    if probe and not spec.noprobe:
+    if probe == 'tail' and not spec.noprobe:
+        edits.append((tail_probe_pos(body), '\n        proof { assert(false); } // __PROBE__ %s\n' % spec.name))
+    elif probe and not spec.noprobe:
         edits.append((1, '\n        proof { assert(false); } // __PROBE__ %s\n' % spec.name))
     # apply edits back to front; stable for equal positions (head text before probe)
     for pos, text in sorted(edits, key=lambda e: -e[0]):
@@ -461,6 +463,38 @@ def emit_fn(spec, mode, probe=False):
     em.clauses = count_clauses(contract, spec.loop_ann, spec.inserts)
     em.clauses += [('runtime-assert', d) for (r, d) in rw.log if r == 'R0b']
     return txt, em
+
+
+def tail_probe_pos(body):
+    """position for the reachability probe near the END of a function body: after the last top-level `;` or the last
+    top-level loop block, whichever comes later (never inside an expression; a tail expression stays behind it)"""
+    mb = mask(body)
+    depth, last = 0, 1
+    i, n = 0, len(mb)
+    loop_open = []      # stack of (depth_at_open, is_loop)
+    pending_loop = False
+    while i < n:
+        ch = mb[i]
+        if depth == 1 and re.match(r'(while|for|loop)\b', mb[i:i + 6]) and (i == 0 or not (mb[i - 1].isalnum() or mb[i - 1] == '_')):
+            pending_loop = 'loop' if mb[i:i + 4] == 'loop' else True
+        if ch in '([{':
+            if ch == '{':
+                loop_open.append((depth, pending_loop and depth == 1))
+                if depth == 1:
+                    pending_loop = False
+            depth += 1
+        elif ch in ')]}':
+            depth -= 1
+            if ch == '}' and loop_open:
+                d0, is_loop = loop_open.pop()
+                # a bare `loop` may be the tail expression (type `!` or a break value): a boundary only when code follows it
+                if is_loop and d0 == 1 and depth == 1 and (is_loop != 'loop' or mb[i + 1:].strip().rstrip('}').strip()):
+                    last = i + 1
+        elif ch == ';' and depth == 1:
+            last = i + 1
+            pending_loop = False
+        i += 1
+    return last
 
 
 def emit_closure_call(spec):
